@@ -41,7 +41,14 @@ def _memoize_default(default=_NO_DEFAULT, inference_state_is_first_arg=False,
             else:
                 if default is not _NO_DEFAULT:
                     memo[key] = default
-                rv = function(obj, *args, **kwargs)
+                try:
+                    rv = function(obj, *args, **kwargs)
+                except BaseException:
+                    # The default is only there to stop recursions while the value is
+                    # being computed. Don't leave it behind as if it were the result,
+                    # otherwise later queries on the same Script see the default.
+                    memo.pop(key, None)
+                    raise
                 memo[key] = rv
                 return rv
         return wrapper
